@@ -25,8 +25,8 @@ func t[X any]() reflect.Type { return reflect.TypeFor[X]() }
 
 // Named: path -> name -> reflect type (plain named types).
 var Named = map[string]map[string]reflect.Type{
-	FA:              {"T": t[fa.T](), "U": t[fa.U](), "S": t[fa.S](), "E": t[fa.E](), "F": t[fa.F](), "M": t[fa.M](), "Buffer": t[fa.Buffer](), "Duration": t[fa.Duration](), "Rand": t[fa.Rand](), "Template": t[fa.Template](), "URL": t[fa.URL](), "Time": t[fa.Time](), "PS": t[fa.PS](), "LS": t[fa.LS](), "AR": t[fa.AR](), "CH": t[fa.CH]()},
-	FB:              {"T": t[fb.T](), "U": t[fb.U](), "S": t[fb.S](), "E": t[fb.E](), "F": t[fb.F](), "M": t[fb.M](), "Buffer": t[fb.Buffer](), "Duration": t[fb.Duration](), "Rand": t[fb.Rand](), "Template": t[fb.Template](), "URL": t[fb.URL](), "Time": t[fb.Time](), "PS": t[fb.PS](), "LS": t[fb.LS](), "AR": t[fb.AR](), "CH": t[fb.CH]()},
+	FA:              {"T": t[fa.T](), "U": t[fa.U](), "S": t[fa.S](), "E": t[fa.E](), "F": t[fa.F](), "M": t[fa.M](), "Buffer": t[fa.Buffer](), "Duration": t[fa.Duration](), "Rand": t[fa.Rand](), "Template": t[fa.Template](), "URL": t[fa.URL](), "Time": t[fa.Time](), "PS": t[fa.PS](), "LS": t[fa.LS](), "AR": t[fa.AR](), "CH": t[fa.CH](), "Größe": t[fa.Größe]()},
+	FB:              {"T": t[fb.T](), "U": t[fb.U](), "S": t[fb.S](), "E": t[fb.E](), "F": t[fb.F](), "M": t[fb.M](), "Buffer": t[fb.Buffer](), "Duration": t[fb.Duration](), "Rand": t[fb.Rand](), "Template": t[fb.Template](), "URL": t[fb.URL](), "Time": t[fb.Time](), "PS": t[fb.PS](), "LS": t[fb.LS](), "AR": t[fb.AR](), "CH": t[fb.CH](), "Größe": t[fb.Größe]()},
 	FR:              {"T": t[fr.T](), "U": t[fr.U](), "S": t[fr.S](), "Rand": t[fr.Rand](), "Duration": t[fr.Duration]()},
 	"time":          {"Duration": t[time.Duration](), "Time": t[time.Time]()},
 	"bytes":         {"Buffer": t[bytes.Buffer]()},
